@@ -204,14 +204,23 @@ Proof.
     destruct (get_struct _ part fds fs None false); try exact I. cbn. exact Hs.
 Qed.
 
-Lemma get_loop_wt cfg parts : hook cfg = None -> forall x, rwt x -> res_wt (get_loop cfg parts x).
+(* a value-transformation hook is admissible when it maps well-typed values to well-typed values (identity, unwrapping a
+   field, a constant, the nil-returning hook: all of the harness family); no hook at all is the special case None *)
+Definition hook_ok (cfg : config) : Prop :=
+  match hook cfg with None => True | Some h => forall v, rwt v -> rwt (h v) end.
+Lemma hook_none_ok cfg : hook cfg = None -> hook_ok cfg.
+Proof. unfold hook_ok. intros ->. exact I. Qed.
+
+Lemma get_loop_wt cfg parts : hook_ok cfg -> forall x, rwt x -> res_wt (get_loop cfg parts x).
 Proof.
   intros Hh. induction parts as [|p ps IH]; intros x H; cbn [get_loop]; [exact H|].
-  pose proof (get_step_wt cfg p x H) as Hs. destruct (get_step cfg p x); cbn in Hs; try tauto; try exact I.
-  rewrite Hh. apply IH. exact Hs.
+  pose proof (get_step_wt cfg p x H) as Hs. destruct (get_step cfg p x) as [nxt|e|]; cbn in Hs; try tauto; try exact I.
+  unfold hook_ok in Hh. destruct (hook cfg) as [h|]; [|apply IH; exact Hs].
+  pose proof (Hh nxt Hs) as Hn. destruct (h nxt) as [[t v]|] eqn:E; [|exact I].
+  apply IH. exact Hn.
 Qed.
 
-Lemma get_wt cfg parts x : hook cfg = None -> rwt x -> res_wt (get cfg parts x).
+Lemma get_wt cfg parts x : hook_ok cfg -> rwt x -> res_wt (get cfg parts x).
 Proof.
   intros Hh H. unfold get. destruct parts; [exact H|].
   pose proof (get_loop_wt cfg (s :: parts) Hh x H) as Hl. destruct (get_loop cfg (s :: parts) x); cbn in *; try tauto.
